@@ -176,16 +176,18 @@ class Engine:
         self.spec_warnings = []
         self.ext_consts = {}
         self.exec_eq_classes = set()
+        self.field_hooks = {}
         self.stats = {"feas_checks": 0, "paths": 0}
         self.exc_parent = dict(BUILTIN_EXC)
         for c in set(repo.classes.values()):
             if c.module.name.endswith("exceptions"):
                 self.exc_parent[c.name] = c.bases[0] if c.bases else "Exception"
-        from . import builtins_model, nx_model, ext_model
+        from . import builtins_model, nx_model, ext_model, path_model
 
         builtins_model.install(self)
         nx_model.install(self)
         ext_model.install(self)
+        path_model.install(self)
 
     # ------------------------------------------------------------------------------------------
     # helpers
@@ -535,7 +537,7 @@ class Engine:
             yield st, z3.Exists([x], sv.t[0][x])
         elif k == "tuple":
             yield st, z3.BoolVal(len(sv.t) > 0)
-        elif k in ("func", "class", "module"):
+        elif k in ("func", "class", "module", "pathobj", "file", "httpstatus", "namespace"):
             yield st, z3.BoolVal(True)
         elif k == "graph":
             x = S.fresh("w", V)
@@ -1521,6 +1523,8 @@ class Engine:
             yield st, sv_str(z3.If(sv.t, z3.StringVal("True"), z3.StringVal("False")))
         elif k == "none":
             yield st, sv_str("None")
+        elif k == "pathobj":
+            yield st, sv_str(sv.t)
         elif k == "exc":
             yield st, sv_str(z3.Function("exc_message", S.Int, S.Str)(z3.IntVal(class_id(sv.t.cls))))
         elif k == "v":
